@@ -1,17 +1,29 @@
 import Lemmas
 import Props.C19
+import Lemmas.Restore
+import Lemmas.SimOS
 /-!
-# C01 — Rollback restores the base filesystem exactly (proved parts)
+# C01 — Rollback restores the base filesystem exactly
 
-The central induction (`Inv` preserved by every mutator, `rollback` restores under `Inv`) is not
-completed; what is machine-checked so far, for every configuration / world / fault plan:
-Rollback always runs all its phases; it issues calls only on tracked paths (so everything the
-transaction never named is untouched: the *untouched* clause of the invariant); after it nothing is
-tracked; it reports success only if every single step succeeded (C09); the removal order is
-deepest-first and the directory restoration order is shallowest-first for every set of tracked
-paths (C19).  The end-to-end statement is checked on every run by the snapshot oracle of the `hist`
-stream over random trees (all 12 mode bits, foreign owners, old mtimes, links), random histories and
-three layerings, the model predicting every primitive call, tree and tracked map along the way.
+Main theorem (`rollback_restores_linkfree_partial`): for the OS model behind two `PrefixFS` layers
+(base root and backup root any two directories neither of which contains the other), every
+well-formed link-free disk, every number of consecutive transactions, and in each every finite
+history of covered operations — Create/OpenFile with any flags and the writes through the handle,
+Mkdir, MkdirAll, Remove, RemoveAll (the whole walk), Rename, Chmod, Chown, Lchown, Chtimes, Stat,
+Lstat, Readlink; operations that fail; repeated operations on one path; every spelling of an
+absolute name — after Rollback every entry of the base below its root is what it was before the
+first operation: same set of paths, types, contents, permission bits (all twelve), owners and file
+modification times (directory timestamps are erased from the view, the root itself is exempt, as in
+the property).  The proof is an invariant (`Inv`, Lemmas/Inv.lean) preserved by every primitive step
+of every mutator under every fault plan (Lemmas/Track.lean, Lemmas/Ops.lean) and a phase-by-phase
+proof that `Rollback` restores from it (Lemmas/Restore.lean), all over an abstract contract
+(`Sim`, Lemmas/Sim.lean) that Lemmas/SimOS*.lean proves of the OS model.
+
+What is *not* covered by this theorem (hence `_partial`), and is decided by the `hist` stream's
+snapshot oracle instead: trees containing symlinks and the `Symlink` operation (five of the open
+findings live there), relative names (K-relative-name), Rename of a non-empty directory
+(K-rename-nonempty-dir), Remove/RemoveAll of the root itself, ForceBackup (C17), the HiddenFS-nested
+layering (C04), and "Rollback returns nil" (C09 proves it returns nil only if every step succeeded).
 -/
 namespace Props.C01
 open BFS BFS.BackupFS
@@ -36,5 +48,43 @@ theorem restore_order (l : List Path) (hclean : ∀ p ∈ l, IsClean p) :
 /-- T01.d after Rollback nothing is tracked, whatever happened. -/
 theorem nothing_tracked_after (cfg : Cfg) (w : World) : (rollback cfg w).1.infos = [] :=
   rollback_resets_infos cfg w
+
+/-- T01.main  Rollback restores the base exactly — link-free fragment, any number of
+transactions (see the header for what "covered" excludes). -/
+theorem rollback_restores_linkfree_partial (bk kk : Key) (hbk : PKey bk) (hkk : PKey kk)
+    (hne1 : bk ≠ []) (hne2 : kk ≠ []) (hd1 : ¬ bk <+: kk) (hd2 : ¬ kk <+: bk)
+    (w : World) (hg : OSGood bk kk w.fs) (hinfos : w.infos = []) (hnf : w.faults = [])
+    (txs : List (List Op))
+    (hcov : CoveredTxs (osCfg bk kk) (osSim bk kk hbk hkk hne1 hne2 hd1 hd2) w txs) :
+    ∀ k, k ≠ [] →
+      ((txs.foldl (runTx (osCfg bk kk)) w).fs.get (bk ++ k)).map eraseMt = (w.fs.get (bk ++ k)).map eraseMt :=
+  txs_restore (S := osSim bk kk hbk hkk hne1 hne2 hd1 hd2) txs w hg hinfos hnf hcov
+
+/-- T01.inv  after any covered history — whatever failed, whatever the fault plan — the
+transaction invariant holds: untracked entries are untouched, and every tracked entry's original
+is described by the tracked map and (for regular files) held by the backup. -/
+theorem invariant_after_history (bk kk : Key) (hbk : PKey bk) (hkk : PKey kk)
+    (hne1 : bk ≠ []) (hne2 : kk ≠ []) (hd1 : ¬ bk <+: kk) (hd2 : ¬ kk <+: bk)
+    (w : World) (hg : OSGood bk kk w.fs) (hinfos : w.infos = []) (ops : List Op)
+    (hcov : CoveredHist (osCfg bk kk) (osSim bk kk hbk hkk hne1 hne2 hd1 hd2) w ops) :
+    Inv (osSim bk kk hbk hkk hne1 hne2 hd1 hd2) (osView bk kk .base w.fs) (runOps (osCfg bk kk) w ops) :=
+  (history_keeps ops w (Inv.init (S := osSim bk kk hbk hkk hne1 hne2 hd1 hd2) hg hinfos) hcov).inv
+
+/-- non-vacuity: the hypotheses hold of an ordinary disk (`/b` with a file and a directory, backup
+root `/k`) and a history that creates, overwrites, removes, makes directories and changes metadata
+(names are relative to the base root) -/
+example : OSGood [['b']] [['k']] exDisk ∧
+    CoveredTxs (osCfg [['b']] [['k']]) osSim_example { fs := exDisk }
+      [[.creat "/n".toList "x", .write "/f".toList (O_WRONLY ||| O_TRUNC) 0 "y", .remove "/f".toList,
+        .mkdirAll "/d/e//g/../h".toList 0o755, .chmod "/d".toList 0o4711, .removeAll "/d".toList],
+       [.chown "/n".toList 5 6]] := by
+  refine ⟨osGood_example, ⟨?_, ?_, ?_, ?_, ?_, ?_, trivial⟩, ⟨?_, trivial⟩, trivial⟩
+  · show isAbs _ = true; decide
+  · show isAbs _ = true; decide
+  · show isAbs _ = true ∧ clean _ ≠ rootP; decide
+  · show isAbs _ = true; decide
+  · show isAbs _ = true; decide
+  · show isAbs _ = true ∧ clean _ ≠ rootP; decide
+  · show isAbs _ = true; decide
 
 end Props.C01
